@@ -165,6 +165,28 @@ func (e *Engine) checkFresh(l *Ledger, roots []*Node, when string) error {
 			return e.viol("%v", err)
 		}
 	}
+	// "precisely the state of the last commit": the registers are exactly the slabs reachable from the live
+	// owned roots (the engine disposes of or keeps as a root everything the library hands back, R6)
+	w := newWalk(st)
+	for _, r := range roots {
+		if r.Addr == atree.AddressUndefined {
+			continue
+		}
+		if _, err := w.visit(r.Root, nil, false); err != nil {
+			return e.viol("%s: walking root#%d on a new storage over the ledger: %v", when, r.ID, err)
+		}
+	}
+	for _, id := range l.Keys() {
+		if _, ok := w.Slabs[id]; !ok {
+			return e.viol("%s: register %s is in the ledger but not reachable from the %d live roots (stale or leaked register)", when, id, len(roots))
+		}
+	}
+	for id := range w.Slabs {
+		if _, ok := l.Regs[id]; !ok {
+			return e.viol("%s: slab %s is reachable on a new storage but has no register", when, id)
+		}
+	}
+	e.Stats.label("fresh_ledger_equals_reachable")
 	return nil
 }
 
